@@ -41,7 +41,7 @@ def main():
                         jobs.append((dname[:3], int(dname.split("-")[1]), os.path.join(d, "patch.diff"), os.path.join(d, "demo.py"), old, old.get("round", 1)))
                 continue
             prop = ident[:3]
-            rnd = {"b": 2, "c": 3, "d": 4, "e": 5, "f": 6, "g": 7, "h": 8, "i": 9}.get(ident[3:4], 1)
+            rnd = {"b": 2, "c": 3, "d": 4, "e": 5, "f": 6, "g": 7, "h": 8, "i": 9, "j": 10}.get(ident[3:4], 1)
             outdir = "/tmp/seed/%s.out" % ident
             try:
                 summ = {d["n"]: d for d in json.load(open(os.path.join(outdir, "summary.json")))}
@@ -51,7 +51,7 @@ def main():
                 patch = os.path.join(outdir, "patch_%d.diff" % n)
                 demo = os.path.join(outdir, "demo_%d.py" % n)
                 if os.path.exists(patch) and os.path.exists(demo):
-                    jobs.append((prop, {1: 0, 2: 3, 3: 7, 4: 11, 5: 15, 6: 19, 7: 23, 8: 25, 9: 27}[rnd] + n, patch, demo, summ.get(n, {}), rnd))
+                    jobs.append((prop, {1: 0, 2: 3, 3: 7, 4: 11, 5: 15, 6: 19, 7: 23, 8: 25, 9: 27, 10: 29}[rnd] + n, patch, demo, summ.get(n, {}), rnd))
         for prop, num, patch, demo, summ_n, rnd in jobs:
             sh("git -C %s checkout -- ." % WT)
             env = {"PYTHONPATH": WT}
